@@ -77,6 +77,86 @@ PROPS["C05"] = {
     "trusted_base": TB_COMMON + ["AES-128 (Lean) validated by published vectors + differential runs only", "tokio write_all/read_exact loop semantics modelled"],
     "assumptions": ["the transport reports honestly how many bytes it accepted"],
 }
+PROPS["C06"] = {
+    "runner": "c06",
+    "design_ref": "DESIGN.md §6 C06",
+    "technique": 'Lean 4 theorems over the L0 connection machine: order automaton invariant by induction over arbitrary input lists, absorption after the closing packet, exact status exchange, gates for Login Success and routing, silent end on unexpected ids; differential correspondence of the machine against the real Connection::listen',
+    "level_text": "Machine-checked proofs for every configuration, environment and input list: the clientbound packets always form a prefix of a word of StatusResponse·Pong | CookieReq·CookieReq?·EncryptionRequest·LoginSuccess·KeepAlive*·(StoreCookie?·StoreCookie?·Transfer | Disconnect); nothing follows the closing packet; a Status Request is answered by exactly the service's answer and the Ping by one Pong; Login Success is only emitted by the step that received an Encryption Response whose token field decrypts to this run's verify token; discovery starts only in the step receiving Client Information, a state only Login Acknowledged leads to; in handshake/status/login phases any other packet id ends the run with no reply.",
+    "level_note": "Trusted: Lean kernel; the L0 machine is hand-written and tied by differential runs; RSA, serde_json, IP text forms, clock and RNG are Env oracles (theorems hold for every Env); tokio select!/Interval behaviour at frame level; cryptographic strength only as explicit hypotheses.",
+    "lean_modules": ["Passage.Props.C06"],
+    "cases": {"quick": 1500, "thorough": 40000},
+    "rule": 'scripts walking the legal exchange with random deviations: packets of every phase and direction, unknown ids, unknown next-states, bad enum ordinals, repeated and skipped packets, early EOF, extra status requests, ticks; all three intents; non-trivial = scripts longer than the handshake; distinct = distinct request lines',
+    "trusted_base": TB_COMMON + [
+        "L0 machine (lean/Passage/Conn) is a hand transliteration of Connection::listen at frame level; tied by differential runs of the real Connection over an in-memory pipe under paused tokio time with logging mock adapters",
+        "Env oracles recorded from the real code and handed to the model: RSA PKCS#1 v1.5 decryption results, serde_json parse/serialise of cookies, textual IP forms, wall clock, keep-alive ids, verify token",
+        "HMAC-SHA256 is computed by the Lean model itself (validated by RFC 4231 vectors), so tags are compared bit for bit",
+    ],
+    "assumptions": ["adapters awaited inline (status, authenticate, localize) return", "one input at a time reaches the handler (frame-level atomicity is C08's subject)"],
+}
+PROPS["C01"] = {
+    "runner": "c01",
+    "design_ref": "DESIGN.md §6 C01",
+    "technique": "Lean 4 theorems: invariant (identity in use = vouched identity) preserved by every step of the L0 machine, grant outputs issued under the vouched identity for every run, origin of vouching (service verdict with the cipher's secret and server key after this run's token, or accepted cookie), no grant on failure; differential correspondence against the real Connection with mock authentication service",
+    "level_text": "Machine-checked proofs for every environment (every service verdict, RSA outcome, token, cookie) and input list: every Login Success, every filter/strategy call and every issued authentication cookie carries exactly the identity vouched for on that connection; an identity becomes vouched only by the authentication service — asked with the claimed name, the decrypted shared secret (the one and only secret the cipher is keyed with) and the server's public key, after this run's verify token came back — or by a cookie meeting C02's conjuncts; on service failure, undecryptable fields or a foreign/stale token nothing is sent and the run ends; the claimed identity is overwritten.",
+    "level_note": "Trusted: Lean kernel; the L0 machine is hand-written and tied by differential runs; RSA, serde_json, IP text forms, clock and RNG are Env oracles (theorems hold for every Env); tokio select!/Interval behaviour at frame level; cryptographic strength only as explicit hypotheses.",
+    "lean_modules": ["Passage.Props.C01"],
+    "cases": {"quick": 1200, "thorough": 30000},
+    "rule": 'cross product of intents x encryption-response kinds (honest, wrong token, stale token, other RSA key, garbage ciphertexts, secrets of 0/15/17/32 bytes) x service verdicts (same identity, other name, other uuid, other properties, error) x with/without a valid cookie for a third identity, routed to completion; the client decrypts with the secret it chose; non-trivial = every scenario; distinct = distinct request lines',
+    "trusted_base": TB_COMMON + [
+        "L0 machine (lean/Passage/Conn) is a hand transliteration of Connection::listen at frame level; tied by differential runs of the real Connection over an in-memory pipe under paused tokio time with logging mock adapters",
+        "Env oracles recorded from the real code and handed to the model: RSA PKCS#1 v1.5 decryption results, serde_json parse/serialise of cookies, textual IP forms, wall clock, keep-alive ids, verify token",
+        "HMAC-SHA256 is computed by the Lean model itself (validated by RFC 4231 vectors), so tags are compared bit for bit",
+    ],
+    "assumptions": ["adapters awaited inline (status, authenticate, localize) return", "one input at a time reaches the handler (frame-level atomicity is C08's subject)"],
+}
+PROPS["C02"] = {
+    "runner": "c02",
+    "design_ref": "DESIGN.md §6 C02",
+    "technique": 'Lean 4 theorems: skip <-> seven conjuncts on the transfer branch, identity from the cookie, reachable-state invariant (never skipped without Transfer intent and secret), enumerated negatives (short, altered tag without crypto hypotheses; altered body / other secret under named HMAC hypotheses; other IP; expired); differential correspondence with bit-exact HMAC in the model',
+    "level_text": "Machine-checked proofs: authentication is skipped exactly when intent=Transfer, a secret is configured, the payload has >= 32 bytes, its first 32 bytes equal H(secret, rest), the rest parses as a cookie, names the client's IP and now <= min(ts+expiry, 2^64-1) — and then the identity is the cookie's; in every reachable state of every run a cleared flag implies Transfer intent and a secret; the flag is only cleared by that step; with the flag set Login Success requires the service's verdict, with it cleared the service is not consulted; every enumerated negative is rejected.",
+    "level_note": "Trusted: Lean kernel; the L0 machine is hand-written and tied by differential runs; RSA, serde_json, IP text forms, clock and RNG are Env oracles (theorems hold for every Env); tokio select!/Interval behaviour at frame level; cryptographic strength only as explicit hypotheses.",
+    "lean_modules": ["Passage.Props.C02"],
+    "cases": {"quick": 1500, "thorough": 40000},
+    "rule": 'per scenario one of: absent, empty, truncation at a random length, single-bit flip in the tag, single-bit flip in the body, tag under another secret, valid tag over non-JSON, valid tag over JSON of the wrong shape, 31- and 32-byte payloads, unmodified; x Login/Transfer x secret/none x IPv4/IPv6 same/other address x ages around expiry boundaries x expiries 0..u64::MAX; non-trivial = every scenario; distinct = distinct request lines',
+    "trusted_base": TB_COMMON + [
+        "L0 machine (lean/Passage/Conn) is a hand transliteration of Connection::listen at frame level; tied by differential runs of the real Connection over an in-memory pipe under paused tokio time with logging mock adapters",
+        "Env oracles recorded from the real code and handed to the model: RSA PKCS#1 v1.5 decryption results, serde_json parse/serialise of cookies, textual IP forms, wall clock, keep-alive ids, verify token",
+        "HMAC-SHA256 is computed by the Lean model itself (validated by RFC 4231 vectors), so tags are compared bit for bit",
+    ],
+    "assumptions": ["adapters awaited inline (status, authenticate, localize) return", "one input at a time reaches the handler (frame-level atomicity is C08's subject)"],
+}
+PROPS["C03"] = {
+    "runner": "c03",
+    "design_ref": "DESIGN.md §6 C03",
+    "technique": 'Lean 4 theorems over the L0 machine: pipeline wiring equalities, transfer = choice and last, localized no-target disconnect, failure => nothing sent, Transfer only from the completion of selection, locale capture/stability, locale fallback chain spec; differential correspondence incl. the real FixedLocalizationAdapter',
+    "level_text": "Machine-checked proofs for every environment: the filter call carries exactly discovery's answer and the strategy call exactly the filters' answer; a chosen target yields exactly one Transfer with its IP text and port as the last packet; no choice yields the Disconnect localized for the locale of this run's Client Information and no Transfer; any failure sends nothing; no other step ever emits a Transfer; the built-in localisation returns the entry of the first table along [locale, its '_'-prefixes longest first, default, its prefixes].",
+    "level_note": "Trusted: Lean kernel; the L0 machine is hand-written and tied by differential runs; RSA, serde_json, IP text forms, clock and RNG are Env oracles (theorems hold for every Env); tokio select!/Interval behaviour at frame level; cryptographic strength only as explicit hypotheses.",
+    "lean_modules": ["Passage.Props.C03"],
+    "cases": {"quick": 1200, "thorough": 30000},
+    "rule": 'routed logins with target lists over IPv4/IPv6/mapped addresses, ports 0/1/65535, duplicates, empty; filter/strategy verdicts subset, reorder, empty, non-member choice, none, error; locales de_DE, de, xx_YY, en_us, empty, a_b_c; mock localisation (argument capture) and the real FixedLocalizationAdapter with random tables; keep-alive traffic interleaved; non-trivial = every scenario; distinct = distinct request lines',
+    "trusted_base": TB_COMMON + [
+        "L0 machine (lean/Passage/Conn) is a hand transliteration of Connection::listen at frame level; tied by differential runs of the real Connection over an in-memory pipe under paused tokio time with logging mock adapters",
+        "Env oracles recorded from the real code and handed to the model: RSA PKCS#1 v1.5 decryption results, serde_json parse/serialise of cookies, textual IP forms, wall clock, keep-alive ids, verify token",
+        "HMAC-SHA256 is computed by the Lean model itself (validated by RFC 4231 vectors), so tags are compared bit for bit",
+    ],
+    "assumptions": ["adapters awaited inline (status, authenticate, localize) return", "one input at a time reaches the handler (frame-level atomicity is C08's subject)"],
+}
+PROPS["C10"] = {
+    "runner": "c10",
+    "design_ref": "DESIGN.md §6 C10",
+    "technique": 'Lean 4 theorems: issue format/position, content under the JSON round-trip hypothesis, issue->accept round trip across two environments, no secret => no cookie, session cookie iff none presented; two-connection differential histories against the real Connection with independent HMAC',
+    "level_text": "Machine-checked proofs: a freshly authenticated, routed player with a secret is sent before the Transfer tag||JSON with tag = H(secret, JSON) and JSON = ser(now, client address, authenticated identity, chosen target id); presenting it on a Transfer connection from the same IP within the expiry (second environment sharing only tag function, JSON library and configuration) clears the flag and yields the same identity; without secret, or after cookie authentication, no auth cookie is ever sent; a session cookie with the handshake's host and port is sent iff the client presented none.",
+    "level_note": "Trusted: Lean kernel; the L0 machine is hand-written and tied by differential runs; RSA, serde_json, IP text forms, clock and RNG are Env oracles (theorems hold for every Env); tokio select!/Interval behaviour at frame level; cryptographic strength only as explicit hypotheses.",
+    "lean_modules": ["Passage.Props.C10"],
+    "cases": {"quick": 800, "thorough": 20000},
+    "rule": 'two-connection histories: authenticate and get routed (identities, property lists with/without signature, target ids, IPv4/IPv6 clients, secrets of 0..100 bytes or none, with/without/null session cookie), then reconnect from another port of the same IP with exactly what was stored; non-trivial = every scenario; distinct = distinct request lines',
+    "trusted_base": TB_COMMON + [
+        "L0 machine (lean/Passage/Conn) is a hand transliteration of Connection::listen at frame level; tied by differential runs of the real Connection over an in-memory pipe under paused tokio time with logging mock adapters",
+        "Env oracles recorded from the real code and handed to the model: RSA PKCS#1 v1.5 decryption results, serde_json parse/serialise of cookies, textual IP forms, wall clock, keep-alive ids, verify token",
+        "HMAC-SHA256 is computed by the Lean model itself (validated by RFC 4231 vectors), so tags are compared bit for bit",
+    ],
+    "assumptions": ["adapters awaited inline (status, authenticate, localize) return", "one input at a time reaches the handler (frame-level atomicity is C08's subject)"],
+}
 
 # properties not claimed yet (kept current; the reason is the honest status)
 NOT_YET = {f"C{i:02d}": "check not built yet in this round (planned per DESIGN.md §9); no claim is made until its check runs green" for i in range(1, 21)}
